@@ -58,6 +58,17 @@ static void prop(Tape &t, Ctx &c) {
         VF_CHECK(got == want, "ed25519-sign-mismatch", "seed=%s msg=%s got=%s want=%s", hx(seed).c_str(), hx(msg, 64).c_str(), hx(got).c_str(), hx(want).c_str());
         return;
     }
+    if (mode == 6) {    // truncation safety: every prefix of a valid signature in an exact-size heap buffer through the length-carrying APIs
+        int entry = 1 + (int) t.below(2);
+        for (size_t L = 0; L < 64; L++) {
+            B pre(want.begin(), want.begin() + (long) L);
+            int got = mx_verify(entry, pub, msg, pre);
+            c.nontrivial(fmt("trunc:%zu:%d", L, entry));
+            VF_CHECK(!got, "ed25519-truncated-signature-accepted", "a %zu-byte prefix of the signature was accepted (entry=%d)", L, entry);
+        }
+        c.count("truncated-signature-prefixes"); c.sample(fmt("ed25519 all 64 signature prefixes entry=%d msglen=%zu", entry, msg.size()));
+        return;
+    }
     int mut = (int) t.below(M_COUNT + 2); if (mut >= M_COUNT) mut = M_NONE;
     B sig = want, m2 = msg, pk = pub; size_t pos = 0;
     switch (mut) {
